@@ -70,7 +70,8 @@ pub fn drive(tr: &mut Tracer, rng: &mut StdRng, thorough: bool) {
     }
     tr.emit(json!({"op": "hashset", "xs": zs}));
     // large |scale| (thorough): the hash materialises zeros
-    let big = if thorough { vec![1000i64, 10000, 100000] } else { vec![1000i64, 20000] };
+    // (the property quantifies over |scale| <= 10^5: the 16-bit boundary and the upper end are in the quick tier too)
+    let big = if thorough { vec![1000i64, 10000, 32768, 65535, 65536, 65537, 70000, 99999, 100000] } else { vec![1000i64, 20000, 65536, 65537, 100000] };
     for e in big {
         for neg in [false, true] {
             tr.emit(json!({"op": "reset"}));
